@@ -4,6 +4,7 @@ import (
 	"encoding/json"
 	"fmt"
 	"github.com/Trendyol/go-dcp/api"
+	"github.com/Trendyol/go-dcp/config"
 	"github.com/Trendyol/go-dcp/models"
 	"github.com/couchbase/gocbcore/v10"
 	"math/big"
@@ -120,6 +121,9 @@ func init() {
 				{Scenario: "c16_race", Params: mustJSON(ScrapeRaceParams{Against: "close"}), Bound: b, Shards: sh},
 				{Scenario: "c16_race", Params: mustJSON(ScrapeRaceParams{Against: "rebalance"}), Bound: b, Shards: sh},
 				{Scenario: "c16_race", Params: mustJSON(ScrapeRaceParams{Against: "open"}), Bound: b, Shards: sh},
+				{Scenario: "c12_afterrebalance", Params: mustJSON(AfterRebParams{OldServer: true, Dynamic: true, CountOnly: true}), Bound: 1, Shards: 8, Note: "server below 5.5.0, dynamic membership (immediate re-open): the asynchronous end of the last stream the old session closed must not lower the active-stream figure of the new session (every schedule within the bound)"},
+				{Scenario: "c12_afterrebalance", Params: mustJSON(AfterRebParams{Dynamic: true, CountOnly: true}), Bound: 1, Shards: 8},
+				{Scenario: "c16_finitelag", Params: mustJSON(struct{}{}), Bound: 0, Note: "finite mode with writes going on after the end bounds were sampled: the lag follows the server's current high seqno"},
 				{Scenario: "c16_infoduringopen", Params: mustJSON(struct{}{}), Bound: 1, Shards: 4, Note: "a new numbering published at every point of the Open() of the first and of a second session: membership and range gauges describe one assignment, the one the streams were opened for"},
 				{Scenario: "c16_race", Params: mustJSON(ScrapeRaceParams{Against: "scrape", Inject: true}), Bound: 1, Shards: 8, Note: "two overlapping scrapes of the one collector (a whole scrape injected at every point of another, plus one deviation): each reports a total lag equal to the sum of its own per-vBucket lags"},
 				{Scenario: "c16_race", Params: mustJSON(ScrapeRaceParams{Against: "scrape"}), Bound: b, Shards: sh, Note: "two overlapping scrapes under every schedule within the bound"},
@@ -640,6 +644,55 @@ func init() {
 			}
 			vrt.SetOutcome(fmt.Sprintf("session=%v|%d/%d|%d..%d", second, m, t, rs, re))
 			e.Stream.Close(false)
+		}}
+	}
+}
+
+// c16_finitelag: finite mode; the bucket keeps being written to after the run has sampled its end bounds. "Lag =
+// max(0, the vBucket's high seqno - the tracked position)" and "total lag = the sum": the figures follow the
+// server's current high seqno, not the end bound of the run.
+func init() {
+	scenarios["c16_finitelag"] = func(raw json.RawMessage) *vrt.Scenario {
+		return &vrt.Scenario{Name: "c16_finitelag", FreeChoices: true, NoTimerAlt: true, MaxSteps: 400000, Main: func() {
+			resetGlobals()
+			when := vrt.Choose(2, true, "scrape") // 0: while the run is under way (consumer busy), 1: after it has ended
+			o := EnvOpts{Vbs: 2, CheckpointType: "manual", Mode: config.DcpModeFinite, WrapMeta: true}
+			c := NewCluster(&o)
+			for vb := uint16(0); vb < 2; vb++ {
+				c.Append(vb, marker(1, 2), symbolPacket("M", 1), symbolPacket("M", 2))
+			}
+			e := NewEnv(c, o)
+			e.Cons.AutoAck = true
+			if when == 0 {
+				e.Cons.OnConsume = func(d *Delivered) {
+					if d.Seq == 2 {
+						vrt.Sleep(time.Hour)
+					}
+				}
+			}
+			e.Stream.Open()
+			vrt.Sleep(2 * time.Second)
+			// writes go on
+			c.Vb[0].High, c.Vb[1].High = 52, 12
+			got, err := scrape(e)
+			if err != nil {
+				vrt.Failf("scrape failed: %v", err)
+				return
+			}
+			offs, _, _ := e.Stream.GetOffsets()
+			total := 0.0
+			for vb := uint16(0); vb < 2; vb++ {
+				off, _ := offs.Load(vb)
+				want := float64(c.Vb[vb].High - off.SeqNo)
+				total += want
+				if v := got[fmt.Sprintf("cbgo_lag_current{vbId=%d}", vb)]; v != want {
+					vrt.Failf("finite mode, the bucket was written to after the run started: lag of vb%d = %v, want high %d - tracked %d = %v", vb, v, c.Vb[vb].High, off.SeqNo, want)
+				}
+			}
+			if v := got["cbgo_total_lag_current"]; v != total {
+				vrt.Failf("finite mode: total lag = %v, want %v", v, total)
+			}
+			vrt.SetOutcome(fmt.Sprintf("when=%d total=%v", when, total))
 		}}
 	}
 }
